@@ -1,6 +1,7 @@
 (* Proofs about Model/Liquidation.v: slice bounds, safety of the seize rules through every sweep
    and the liquidate message, exact handover, and the liveness bound by induction. *)
 From Comdex Require Import Lib.Base Lib.DecArith Model.Liquidation.
+Require Import Coq.Sorting.Permutation.
 From Coq Require Import ZifyBool.
 
 (* ------------------------------------------------------------------------------------ *)
@@ -267,18 +268,19 @@ Qed.
 
 (* ---- borrows ---- *)
 Lemma seize_rule_borrow_sound : forall g b, seize_rule_borrow g b = VSeize ->
-  exists cr th, lend_cr b = Ok cr /\ borrow_threshold b = Ok th /\ cr > th /\
+  exists cr th, lend_cr b = Ok cr /\ applicable_threshold b = Ok th /\ cr > th /\
                 b_liquidated b = false /\ b_kill b = false.
 Proof.
-  intros g b H. unfold seize_rule_borrow in H.
+  intros g b H. unfold seize_rule_borrow, seize_rule_borrow_of in H.
   destruct (b_found b); cbn in H; [|destruct g; discriminate].
   destruct (b_liquidated b); [discriminate|].
   destruct (b_lend_found b); cbn in H; [|discriminate].
   destruct (b_kill b); [discriminate|].
+  destruct (b_interest_panic b); [discriminate|].
   destruct (b_interest_ok b); cbn in H; [|discriminate].
-  unfold ratio_above in H.
+  unfold ratio_above, ratio_above_of in H.
   destruct (lend_cr b) as [cr| |]; cbn in H; try discriminate.
-  destruct (borrow_threshold b) as [th| |]; cbn in H; try discriminate.
+  destruct (applicable_threshold b) as [th| |]; cbn in H; try discriminate.
   destruct (cr >? th) eqn:E; cbn in H.
   - exists cr, th. repeat split; auto. lia.
   - discriminate.
@@ -287,7 +289,7 @@ Qed.
 Lemma safe_borrow_sweep : forall g bs cap off batch r id,
   sweep_one g 0 (map (pos_of_borrow g) bs) cap (zlen bs) off batch = Ok r -> g <> GV1 ->
   In id (r_seized r) ->
-  exists b cr th, In b bs /\ b_id b = id /\ lend_cr b = Ok cr /\ borrow_threshold b = Ok th /\ cr > th.
+  exists b cr th, In b bs /\ b_id b = id /\ lend_cr b = Ok cr /\ applicable_threshold b = Ok th /\ cr > th.
 Proof.
   intros g bs cap off batch r id H Hg Hin.
   destruct (sweep_one_seized _ _ _ _ _ _ _ _ _ H Hin) as (p & Hp & Hid & Hv & _).
@@ -295,6 +297,343 @@ Proof.
   destruct (seize_rule_borrow_sound _ _ Hv) as (cr & th & A & B & C & _).
   exists b, cr, th. repeat split; auto.
 Qed.
+
+(* the liquidate message with liq type 1: the same LiquidateIndividualBorrow *)
+Lemma safe_borrow_msg : forall bs id0 ids l' id,
+  msg_liquidate GB2 (map (pos_of_borrow GB2) bs) id0 = Ok (ids, l') -> In id ids ->
+  exists b cr th, In b bs /\ b_id b = id /\ lend_cr b = Ok cr /\ applicable_threshold b = Ok th /\ cr > th.
+Proof.
+  intros bs id0 ids l' id H Hin. unfold msg_liquidate in H.
+  destruct (find_pos _ id0) as [p|] eqn:Ef; [|discriminate].
+  destruct (find_pos_in _ _ _ Ef) as (Hp & Hid).
+  destruct (p_v p) eqn:Ev; try discriminate; injection H as <- <-; [|contradiction].
+  destruct Hin as [<-|[]].
+  apply in_map_iff in Hp. destruct Hp as (b & <- & Hb). cbn [pos_of_vault pos_of_borrow p_id p_v p_app] in Hid, Ev.
+  destruct (seize_rule_borrow_sound _ _ Ev) as (cr & th & A & B & C & _).
+  exists b, cr, th. repeat split; auto.
+Qed.
+
+Lemma nodup_bid_unique : forall bs v w, NoDup (map b_id bs) -> In v bs -> In w bs -> b_id v = b_id w -> v = w.
+Proof.
+  induction bs as [|a bs IH]; intros v w Hnd Hv Hw Heq; [contradiction|].
+  cbn in Hnd. inversion Hnd as [|x l Hnot Hnd']; subst.
+  destruct Hv as [<-|Hv], Hw as [<-|Hw]; auto.
+  - exfalso. apply Hnot. rewrite Heq. apply in_map; exact Hw.
+  - exfalso. apply Hnot. rewrite <- Heq. apply in_map; exact Hv.
+Qed.
+
+(* the property's wording: at or below the applicable threshold -> never seized, by the sweep ... *)
+Lemma safe_borrow_never : forall g bs cap off batch r b cr th,
+  g <> GV1 -> NoDup (map b_id bs) -> In b bs ->
+  lend_cr b = Ok cr -> applicable_threshold b = Ok th -> cr <= th ->
+  sweep_one g 0 (map (pos_of_borrow g) bs) cap (zlen bs) off batch = Ok r ->
+  ~ In (b_id b) (r_seized r).
+Proof.
+  intros g bs cap off batch r b cr th Hg Hnd Hb Hcr Hth Hle H Hin.
+  destruct (safe_borrow_sweep _ _ _ _ _ _ _ H Hg Hin) as (w & cr' & th' & Hw & Hid & Hcr' & Hth' & Hgt).
+  assert (w = b) by (eapply nodup_bid_unique; eauto). subst w.
+  rewrite Hcr in Hcr'. rewrite Hth in Hth'. injection Hcr' as <-. injection Hth' as <-. lia.
+Qed.
+
+(* ... nor by anyone's liquidate message *)
+Lemma safe_borrow_never_msg : forall bs id0 ids l' b cr th,
+  NoDup (map b_id bs) -> In b bs ->
+  lend_cr b = Ok cr -> applicable_threshold b = Ok th -> cr <= th ->
+  msg_liquidate GB2 (map (pos_of_borrow GB2) bs) id0 = Ok (ids, l') ->
+  ~ In (b_id b) ids.
+Proof.
+  intros bs id0 ids l' b cr th Hnd Hb Hcr Hth Hle H Hin.
+  destruct (safe_borrow_msg _ _ _ _ _ H Hin) as (w & cr' & th' & Hw & Hid & Hcr' & Hth' & Hgt).
+  assert (w = b) by (eapply nodup_bid_unique; eauto). subst w.
+  rewrite Hcr in Hcr'. rewrite Hth in Hth'. injection Hcr' as <-. injection Hth' as <-. lia.
+Qed.
+
+(* the boolean the runner evaluates on the implementation's borrow seizures is this statement *)
+Lemma borrow_unsafe_spec : forall b, borrow_unsafe b = true ->
+  exists cr th, lend_cr b = Ok cr /\ applicable_threshold b = Ok th /\ cr > th.
+Proof.
+  intros b H. unfold borrow_unsafe, ratio_above, ratio_above_of in H.
+  destruct (lend_cr b) as [cr| |]; cbn in H; try discriminate.
+  destruct (applicable_threshold b) as [th| |]; cbn in H; try discriminate.
+  exists cr, th. repeat split; auto. lia.
+Qed.
+
+(* the runner's one-pass evaluation is the rule, the ratio, the threshold and the safety predicate *)
+Lemma borrow_eval_spec : forall g b,
+  e_v (borrow_eval g b) = seize_rule_borrow g b /\ e_cr (borrow_eval g b) = lend_cr b /\
+  e_th (borrow_eval g b) = applicable_threshold b /\ e_unsafe (borrow_eval g b) = borrow_unsafe b.
+Proof. intros. repeat split. Qed.
+
+(* outside the class C09-F5 the property's hypotheses make the visit seize an unsafe borrow: the
+   hypothesis "vf x = VSeize" of the borrow liveness theorems is exactly "hypotheses + unsafe" there *)
+Lemma live_borrow_verdict : forall b,
+  live_hyp_borrow b = true -> borrow_unsafe b = true -> kf_C09_5 b = false -> kf_C09_6 b = false ->
+  seize_rule_borrow GB2 b = VSeize.
+Proof.
+  intros b Hh Hu Hk5 Hk6. unfold kf_C09_5 in Hk5. unfold kf_C09_6 in Hk6. rewrite Hh, Hu in Hk5, Hk6. cbn in Hk5, Hk6.
+  apply Bool.negb_false_iff in Hk5. apply Bool.orb_false_iff in Hk6. destruct Hk6 as (Hp & Hi).
+  apply Bool.negb_false_iff in Hi.
+  unfold live_hyp_borrow in Hh. repeat (apply andb_prop in Hh; destruct Hh as (Hh & ?)).
+  unfold borrow_unsafe in Hu. unfold seize_rule_borrow, seize_rule_borrow_of, borrow_start_ok.
+  rewrite Hh. cbn [negb]. apply Bool.negb_true_iff in H3. rewrite H3. rewrite H2. cbn [negb].
+  apply Bool.negb_true_iff in H1. rewrite H1. rewrite Hp, Hi. cbn [negb].
+  destruct (ratio_above b) as [[|]| |]; try discriminate.
+  cbn. rewrite H0. cbn [negb]. rewrite Hk5, H. reflexivity.
+Qed.
+
+(* a borrow whose visit does not reach VSeize is not seized by any sweep, whatever the list, the
+   offset and the batch size *)
+Lemma not_seize_never : forall g bs cap off batch r b,
+  g <> GV1 -> NoDup (map b_id bs) -> In b bs -> seize_rule_borrow g b <> VSeize ->
+  sweep_one g 0 (map (pos_of_borrow g) bs) cap (zlen bs) off batch = Ok r ->
+  ~ In (b_id b) (r_seized r).
+Proof.
+  intros g bs cap off batch r b Hg Hnd Hb Hv H Hin.
+  destruct (sweep_one_seized _ _ _ _ _ _ _ _ _ H Hin) as (p & Hp & Hid & Hpv & _).
+  apply in_map_iff in Hp. destruct Hp as (w & <- & Hw). cbn [pos_of_borrow p_id p_v] in Hid, Hpv.
+  assert (w = b) by (eapply nodup_bid_unique; eauto). subst w. contradiction.
+Qed.
+
+(* the threshold applicable to a borrow, case by case, as liquidate.go:295-349 computes it *)
+Lemma applicable_threshold_cases : forall b,
+  (b_bridged_amt b = 0 -> applicable_threshold b = Ok (base_threshold b)) /\
+  (b_bridged_amt b <> 0 -> b_bridged_denom b = b_first_denom b ->
+     applicable_threshold b = oz (dmul_c (base_threshold b) (b_thr_one b))) /\
+  (b_bridged_amt b <> 0 -> b_bridged_denom b <> b_first_denom b ->
+     applicable_threshold b = oz (dmul_c (base_threshold b) (b_thr_two b))) /\
+  (b_emode b = true -> base_threshold b = b_eliq_thr b) /\
+  (b_emode b = false -> base_threshold b = b_liq_thr b).
+Proof.
+  intro b. unfold applicable_threshold, bridge_of, base_threshold. repeat split; intros.
+  - replace (b_bridged_amt b =? 0) with true by lia. reflexivity.
+  - replace (b_bridged_amt b =? 0) with false by lia.
+    replace (b_bridged_denom b =? b_first_denom b) with true by lia. reflexivity.
+  - replace (b_bridged_amt b =? 0) with false by lia.
+    replace (b_bridged_denom b =? b_first_denom b) with false by lia. reflexivity.
+  - rewrite H. reflexivity.
+  - rewrite H. reflexivity.
+Qed.
+
+(* ------------------------------------------------------------------------------------ *)
+(* exact handover of a BORROW seizure (UpdateLockedBorrows)                               *)
+
+Lemma key_eqb_eq a b : key_eqb a b = true <-> a = b.
+Proof. destruct a, b. unfold key_eqb. cbn [fst snd]. split; intro H; [f_equal; lia|injection H as -> ->; lia]. Qed.
+
+Lemma key_eqb_refl a : key_eqb a a = true.
+Proof. apply key_eqb_eq. reflexivity. Qed.
+
+Lemma key_eqb_neq a b : a <> b -> key_eqb a b = false.
+Proof. intro H. destruct (key_eqb a b) eqn:E; [|reflexivity]. apply key_eqb_eq in E. contradiction. Qed.
+
+Lemma kget_kadd_same : forall m k d, kget (kadd m k d) k = kget m k + d.
+Proof.
+  induction m as [|[k' v] r IH]; intros k d; cbn [kadd kget].
+  - rewrite key_eqb_refl. lia.
+  - destruct (key_eqb k' k) eqn:E; cbn [kget]; rewrite E; [lia|apply IH].
+Qed.
+
+Lemma kget_kadd_other : forall m k k2 d, k <> k2 -> kget (kadd m k d) k2 = kget m k2.
+Proof.
+  induction m as [|[k' v] r IH]; intros k k2 d Hne; cbn [kadd kget].
+  - rewrite key_eqb_neq by exact Hne. reflexivity.
+  - destruct (key_eqb k' k) eqn:E; cbn [kget].
+    + apply key_eqb_eq in E. subst k'. rewrite key_eqb_neq by exact Hne. reflexivity.
+    + destruct (key_eqb k' k2); [reflexivity|apply IH; exact Hne].
+Qed.
+
+Lemma lend_get_sub_other : forall m id id2 d, id <> id2 -> lend_get (lend_sub m id d) id2 = lend_get m id2.
+Proof.
+  induction m as [|[i v] r IH]; intros id id2 d Hne; cbn [lend_sub lend_get]; [reflexivity|].
+  destruct (i =? id) eqn:E.
+  - assert (i = id) by lia. subst i. replace (id =? id2) with false by lia.
+    destruct (v - d >? 0); cbn [lend_get]; [replace (id =? id2) with false by lia|]; reflexivity.
+  - cbn [lend_get]. destruct (i =? id2); [reflexivity|apply IH; exact Hne].
+Qed.
+
+(* ONE borrow seizure, every input: exactly the recorded collateral leaves the pool's module
+   account for the auction module's, the same amount of the cToken is burnt, no other balance
+   moves; the pool statistics and the lend position shrink by exactly the recorded amounts;
+   IsLiquidated is set; exactly one locked vault and one auction are opened, for exactly the
+   recorded collateral *)
+Lemma handover_borrow_one : forall w z,
+  z_pool_acc z <> auction_acc -> z_denom_in z <> z_cdenom z ->
+  let w' := seize_borrow_world w z in
+  kget (w_bal w') (z_pool_acc z, z_denom_in z) = kget (w_bal w) (z_pool_acc z, z_denom_in z) - z_amt_in z /\
+  kget (w_bal w') (auction_acc, z_denom_in z) = kget (w_bal w) (auction_acc, z_denom_in z) + z_amt_in z /\
+  kget (w_bal w') (z_pool_acc z, z_cdenom z) = kget (w_bal w) (z_pool_acc z, z_cdenom z) - z_amt_in z /\
+  (forall k, k <> (z_pool_acc z, z_denom_in z) -> k <> (auction_acc, z_denom_in z) -> k <> (z_pool_acc z, z_cdenom z) ->
+     kget (w_bal w') k = kget (w_bal w) k) /\
+  kget (w_supply w') (0, z_cdenom z) = kget (w_supply w) (0, z_cdenom z) - z_amt_in z /\
+  (forall k, k <> (0, z_cdenom z) -> kget (w_supply w') k = kget (w_supply w) k) /\
+  kget (w_tlend w') (z_pool_in z, z_asset_in z) = kget (w_tlend w) (z_pool_in z, z_asset_in z) - z_amt_in z /\
+  (forall k, k <> (z_pool_in z, z_asset_in z) -> kget (w_tlend w') k = kget (w_tlend w) k) /\
+  kget (w_tborrow w') (z_pool_out z, z_asset_out z) + kget (w_tstable w') (z_pool_out z, z_asset_out z) =
+    kget (w_tborrow w) (z_pool_out z, z_asset_out z) + kget (w_tstable w) (z_pool_out z, z_asset_out z) - z_amt_out z /\
+  (forall k, k <> (z_pool_out z, z_asset_out z) ->
+     kget (w_tborrow w') k = kget (w_tborrow w) k /\ kget (w_tstable w') k = kget (w_tstable w) k) /\
+  (forall id, id <> z_lend z -> lend_get (w_lend w') id = lend_get (w_lend w) id) /\
+  w_liq w' = w_liq w ++ [z_id z] /\
+  w_locked w' = w_locked w ++ [(z_id z, z_amt_in z)] /\
+  w_auction w' = w_auction w ++ [(z_id z, z_amt_in z)].
+Proof.
+  intros w z Hacc Hden. cbn zeta. unfold seize_borrow_world.
+  cbn [w_bal w_supply w_tlend w_tborrow w_tstable w_lend w_liq w_locked w_auction].
+  assert (N1 : (auction_acc, z_denom_in z) <> (z_pool_acc z, z_denom_in z)) by (intro H; injection H as H; congruence).
+  assert (N2 : (z_pool_acc z, z_cdenom z) <> (z_pool_acc z, z_denom_in z)) by (intro H; injection H as H; congruence).
+  assert (N3 : (z_pool_acc z, z_cdenom z) <> (auction_acc, z_denom_in z)) by (intro H; injection H as H; congruence).
+  repeat split.
+  - rewrite kget_kadd_other by exact N2. rewrite kget_kadd_other by exact N1. rewrite kget_kadd_same. lia.
+  - rewrite kget_kadd_other by exact N3. rewrite kget_kadd_same.
+    rewrite kget_kadd_other by (intro H; apply N1; symmetry; exact H). lia.
+  - rewrite kget_kadd_same. rewrite kget_kadd_other by (intro H; apply N3; symmetry; exact H).
+    rewrite kget_kadd_other by (intro H; apply N2; symmetry; exact H). lia.
+  - intros k K1 K2 K3. rewrite !kget_kadd_other by (intro H; subst k; contradiction). reflexivity.
+  - rewrite kget_kadd_same. lia.
+  - intros k K. rewrite kget_kadd_other by (intro H; subst k; contradiction). reflexivity.
+  - rewrite kget_kadd_same. lia.
+  - intros k K. rewrite kget_kadd_other by (intro H; subst k; contradiction). reflexivity.
+  - destruct (z_stable z); rewrite kget_kadd_same; lia.
+  - destruct (z_stable z); [reflexivity|]. rewrite kget_kadd_other by (intro H0; subst k; contradiction). reflexivity.
+  - destruct (z_stable z); [|reflexivity]. rewrite kget_kadd_other by (intro H0; subst k; contradiction). reflexivity.
+  - intros id Hid. apply lend_get_sub_other. congruence.
+Qed.
+
+(* ... and the lend position: it keeps exactly AmountIn - collateral, or is deleted when nothing
+   positive is left (ids are unique in the table) *)
+Lemma lend_get_sub_spec : forall m id d v, NoDup (map fst m) -> lend_get m id = Some v ->
+  lend_get (lend_sub m id d) id = if v - d >? 0 then Some (v - d) else None.
+Proof.
+  induction m as [|[i w] r IH]; intros id d v Hnd H; cbn [lend_sub lend_get map fst] in *; [discriminate|].
+  inversion Hnd as [|? ? Hni Hnd']; subst.
+  destruct (i =? id) eqn:E.
+  - injection H as ->. assert (i = id) by lia. subst i. destruct (v - d >? 0) eqn:E2; cbn [lend_get].
+    + rewrite Z.eqb_refl. reflexivity.
+    + clear - Hni. induction r as [|[j u] r IH]; cbn [lend_get]; [reflexivity|].
+      destruct (j =? id) eqn:Ej.
+      * exfalso. apply Hni. left. cbn. lia.
+      * apply IH. intro H. apply Hni. right. exact H.
+  - cbn [lend_get]. rewrite E. apply IH; assumption.
+Qed.
+
+(* any sequence of borrow seizures: one locked vault and one auction per seizure, in order, each
+   for exactly the recorded collateral; IsLiquidated set for exactly the seized borrows *)
+Lemma handover_borrow_records : forall zs w,
+  w_locked (fold_left seize_borrow_world zs w) = w_locked w ++ map (fun z => (z_id z, z_amt_in z)) zs /\
+  w_auction (fold_left seize_borrow_world zs w) = w_auction w ++ map (fun z => (z_id z, z_amt_in z)) zs /\
+  w_liq (fold_left seize_borrow_world zs w) = w_liq w ++ seized_ids zs.
+Proof.
+  induction zs as [|z zs IH]; intros w; cbn [fold_left map seized_ids].
+  - rewrite !app_nil_r. auto.
+  - destruct (IH (seize_borrow_world w z)) as (A & B & C). rewrite A, B, C.
+    replace (w_locked (seize_borrow_world w z)) with (w_locked w ++ [(z_id z, z_amt_in z)]) by reflexivity.
+    replace (w_auction (seize_borrow_world w z)) with (w_auction w ++ [(z_id z, z_amt_in z)]) by reflexivity.
+    replace (w_liq (seize_borrow_world w z)) with (w_liq w ++ [z_id z]) by reflexivity.
+    unfold seized_ids. rewrite <- !app_assoc. auto.
+Qed.
+
+(* auction custody: over any sequence of seizures the auction module's balance in denom d grows by
+   exactly the sum of the recorded collateral of the seized borrows whose collateral is d *)
+Definition coll_in (d : Z) (z : bseize) : Z := if z_denom_in z =? d then z_amt_in z else 0.
+
+Lemma handover_borrow_custody : forall zs w d,
+  Forall (fun z => z_pool_acc z <> auction_acc /\ z_denom_in z <> z_cdenom z) zs ->
+  kget (w_bal (fold_left seize_borrow_world zs w)) (auction_acc, d) =
+  kget (w_bal w) (auction_acc, d) + zsum (map (coll_in d) zs).
+Proof.
+  induction zs as [|z zs IH]; intros w d Hall; cbn [fold_left map zsum]; [lia|].
+  inversion Hall as [|? ? (Hacc & Hden) Hall']; subst.
+  rewrite IH by exact Hall'.
+  destruct (handover_borrow_one w z Hacc Hden) as (_ & A & _ & O & _). cbn zeta in A, O.
+  unfold coll_in at 2. destruct (z_denom_in z =? d) eqn:E.
+  - assert (z_denom_in z = d) by lia. subst d. rewrite A. lia.
+  - rewrite O; [lia| | |]; intro H.
+    + assert (H1 : fst (auction_acc, d) = fst (z_pool_acc z, z_denom_in z)) by (rewrite H; reflexivity).
+      cbn [fst] in H1. congruence.
+    + assert (H1 : snd (auction_acc, d) = snd (auction_acc, z_denom_in z)) by (rewrite H; reflexivity).
+      cbn [snd] in H1. lia.
+    + assert (H1 : fst (auction_acc, d) = fst (z_pool_acc z, z_cdenom z)) by (rewrite H; reflexivity).
+      cbn [fst] in H1. congruence.
+Qed.
+
+(* the predicate the runner evaluates accepts exactly the model's book-keeping *)
+Lemma kv_eqb_refl a : kv_eqb a a = true.
+Proof. unfold kv_eqb. rewrite key_eqb_refl. lia. Qed.
+Lemma zz_eqb_refl a : zz_eqb a a = true.
+Proof. unfold zz_eqb. lia. Qed.
+Lemma list_eqb_refl {A} (eqb : A -> A -> bool) : (forall a, eqb a a = true) -> forall l, list_eqb eqb l l = true.
+Proof. intros H. induction l as [|a l IH]; cbn; [reflexivity|]. rewrite H, IH. reflexivity. Qed.
+Lemma lworld_eqb_refl w : lworld_eqb w w = true.
+Proof.
+  unfold lworld_eqb.
+  rewrite !(list_eqb_refl kv_eqb kv_eqb_refl), !(list_eqb_refl zz_eqb zz_eqb_refl), (list_eqb_refl Z.eqb Z.eqb_refl).
+  reflexivity.
+Qed.
+
+Lemma list_eqb_eq {A} (eqb : A -> A -> bool) : (forall a b, eqb a b = true -> a = b) ->
+  forall l1 l2, list_eqb eqb l1 l2 = true -> l1 = l2.
+Proof.
+  intros H. induction l1 as [|a l1 IH]; intros [|b l2] E; cbn in E; try discriminate; [reflexivity|].
+  apply andb_prop in E. destruct E as (E1 & E2). f_equal; [apply H; exact E1|apply IH; exact E2].
+Qed.
+Lemma kv_eqb_eq a b : kv_eqb a b = true -> a = b.
+Proof.
+  destruct a as [ka va], b as [kb vb]. unfold kv_eqb. cbn [fst snd]. intro H. apply andb_prop in H.
+  destruct H as (H1 & H2). apply key_eqb_eq in H1. subst. f_equal. lia.
+Qed.
+Lemma zz_eqb_eq a b : zz_eqb a b = true -> a = b.
+Proof. destruct a, b. unfold zz_eqb. cbn [fst snd]. intro H. f_equal; lia. Qed.
+
+Lemma lworld_eqb_eq a b : lworld_eqb a b = true -> a = b.
+Proof.
+  unfold lworld_eqb. intro H. repeat (apply andb_prop in H; destruct H as (H & ?)).
+  destruct a as [a1 a2 a3 a4 a5 a6 a7 a8 a9], b as [b1 b2 b3 b4 b5 b6 b7 b8 b9].
+  cbn [w_bal w_supply w_tlend w_tborrow w_tstable w_lend w_liq w_locked w_auction] in *.
+  f_equal; first [apply (list_eqb_eq kv_eqb kv_eqb_eq); assumption
+                 |apply (list_eqb_eq zz_eqb zz_eqb_eq); assumption
+                 |apply (list_eqb_eq Z.eqb); [intros; lia|assumption]].
+Qed.
+
+Lemma handover_external_one : forall w denom amt,
+  let w' := ext_world w denom amt in
+  kget (w_bal w') (auction_acc, denom) = kget (w_bal w) (auction_acc, denom) + amt /\
+  (forall k, k <> (auction_acc, denom) -> kget (w_bal w') k = kget (w_bal w) k) /\
+  w_locked w' = w_locked w ++ [(0, amt)] /\ w_auction w' = w_auction w ++ [(0, amt)] /\
+  w_liq w' = w_liq w /\ w_lend w' = w_lend w /\ w_tlend w' = w_tlend w /\ w_tborrow w' = w_tborrow w /\
+  w_tstable w' = w_tstable w /\ w_supply w' = w_supply w.
+Proof.
+  intros w denom amt. cbn zeta. unfold ext_world.
+  cbn [w_bal w_supply w_tlend w_tborrow w_tstable w_lend w_liq w_locked w_auction].
+  repeat split.
+  - apply kget_kadd_same.
+  - intros k K. apply kget_kadd_other. intro H. apply K. symmetry; exact H.
+Qed.
+
+Lemma valid_batch_spec : forall b, valid_batch b = true -> 1 <= b /\ int_of_u64 b = b /\ u64 b = b.
+Proof.
+  intros b H. unfold valid_batch in H. unfold int_of_u64, u64, two63, two64 in *.
+  assert (1 <= b < 9223372036854775808) by lia.
+  replace (b >=? 9223372036854775808) with false by lia.
+  rewrite Z.mod_small by lia. lia.
+Qed.
+
+(* a stored batch size outside the validated range (2^63 .. 2^64-1: int() is negative) sweeps nothing,
+   in any block, whatever the list: the reason for the validation bound *)
+Lemma invalid_batch_sweeps_nothing : forall b len off, two63 <= b < two64 -> 0 <= len ->
+  sweep_window len off (int_of_u64 b) = (len, len).
+Proof.
+  intros b len off Hb Hl. unfold sweep_window, slice_bounds, int_of_u64, two63, two64 in *.
+  replace (b >=? 9223372036854775808) with true by lia.
+  replace (b - 18446744073709551616 <? 0) with true by lia.
+  rewrite !Bool.orb_true_r. cbn [fst snd]. rewrite Z.eqb_refl. reflexivity.
+Qed.
+
+Lemma handover_borrow_holds : forall zs w, holds_C09_handover_borrow w (fold_left seize_borrow_world zs w) zs = true.
+Proof. intros. apply lworld_eqb_refl. Qed.
+
+Lemma handover_borrow_spec : forall zs w w', holds_C09_handover_borrow w w' zs = true ->
+  w' = fold_left seize_borrow_world zs w.
+Proof. intros zs w w' H. symmetry. apply lworld_eqb_eq. exact H. Qed.
 
 (* ------------------------------------------------------------------------------------ *)
 (* exact handover (as far as the seizure effects are modelled)                            *)
@@ -870,11 +1209,81 @@ Qed.
 (* ---- liveness of the V2 borrow sweep ---- *)
 Definition bst (st : bstate) : list Z * Z := (bs_ids st, bs_off st).
 
+(* ---- insertion of a new borrow anywhere in the list ---- *)
+Lemma insert_at_in k id ids x : In x (insert_at k id ids) <-> x = id \/ In x ids.
+Proof.
+  unfold insert_at. split; intro H.
+  - apply in_app_or in H. destruct H as [H|[H|H]].
+    + right. eapply in_firstn; exact H.
+    + left. symmetry; exact H.
+    + right. eapply in_skipn; exact H.
+  - destruct H as [->|H].
+    + apply in_or_app. right. left. reflexivity.
+    + rewrite <- (firstn_skipn k ids) in H. apply in_app_or in H. apply in_or_app.
+      destruct H as [H|H]; [left; exact H|right; right; exact H].
+Qed.
+
+Lemma zlen_insert_at k id ids : zlen (insert_at k id ids) = zlen ids + 1.
+Proof.
+  unfold insert_at, zlen. rewrite app_length. cbn [length].
+  pose proof (f_equal (@length Z) (firstn_skipn k ids)) as H. rewrite app_length in H. lia.
+Qed.
+
+Lemma nodup_insert_at k id ids : NoDup ids -> ~ In id ids -> NoDup (insert_at k id ids).
+Proof.
+  intros Hnd Hni. unfold insert_at.
+  apply (Permutation_NoDup (Permutation_middle (firstn k ids) (skipn k ids) id)).
+  rewrite firstn_skipn. constructor; assumption.
+Qed.
+
+Lemma insert_at_cons k id a r : insert_at (S k) id (a :: r) = a :: insert_at k id r.
+Proof. reflexivity. Qed.
+
+Lemma idxn_insert_at : forall k ids id x, x <> id -> In x ids ->
+  idxn x (insert_at k id ids) = idxn x ids \/ idxn x (insert_at k id ids) = S (idxn x ids).
+Proof.
+  induction k as [|k IH]; intros ids id x Hne Hx.
+  - right. unfold insert_at. cbn [firstn skipn app idxn].
+    destruct (id =? x) eqn:E; [exfalso; apply Hne; lia|reflexivity].
+  - destruct ids as [|a r]; [contradiction|]. rewrite insert_at_cons. cbn [idxn].
+    destruct (a =? x) eqn:E; [left; reflexivity|].
+    destruct Hx as [Hx|Hx]; [exfalso; lia|].
+    destruct (IH r id x Hne Hx) as [H|H]; rewrite H; [left|right]; reflexivity.
+Qed.
+
+Lemma div_add_le a d b : 0 < b -> 0 <= d -> (a + d) / b <= a / b + d.
+Proof.
+  intros Hb Hd. rewrite <- (Z.div_add a d b) by lia. apply Z.div_le_mono; [lia|nia].
+Qed.
+
+(* Claim D': inserting one position ANYWHERE (before or behind index i) costs at most 3 *)
+Lemma pot_T_insert n i i' off b : 0 < b -> 0 <= i < n -> 0 <= off -> i' = i \/ i' = i + 1 ->
+  pot_T (n + 1) i' off b <= pot_T n i off b + 3.
+Proof.
+  intros Hb Hi Ho [->| ->].
+  - pose proof (pot_T_create n i off b Hb Hi Ho). lia.
+  - unfold pot_T. destruct (off <? n) eqn:E1.
+    + replace (off <? n + 1) with true by lia. destruct (off <=? i) eqn:E2.
+      * replace (off <=? i + 1) with true by lia.
+        replace (i + 1 - off) with (i - off + 1) by lia. pose proof (div_add_le (i - off) 1 b Hb). lia.
+      * destruct (off <=? i + 1) eqn:E3.
+        -- assert (off = i + 1) by lia. subst off. replace (i + 1 - (i + 1)) with 0 by lia.
+           rewrite Z.div_0_l by lia. pose proof (Z.div_pos (n - (i + 1) + i) b). lia.
+        -- replace (n + 1 - off + (i + 1)) with (n - off + i + 2) by lia.
+           pose proof (div_add_le (n - off + i) 2 b Hb). lia.
+    + destruct (off <? n + 1) eqn:E2.
+      * assert (off = n) by lia. subst off. destruct (n <=? i + 1) eqn:E3.
+        -- assert (i + 1 = n) by lia. replace (i + 1 - n) with 0 by lia. rewrite Z.div_0_l by lia.
+           pose proof (Z.div_pos i b). lia.
+        -- replace (n + 1 - n + (i + 1)) with (i + 2) by lia. pose proof (div_add_le i 2 b Hb). lia.
+      * pose proof (div_add_le i 1 b Hb). lia.
+Qed.
+
 Definition bev_ok (x : Z) (st : bstate) (e : bevent) : Prop :=
   match e with
   | BBlock vf => vf x = VSeize
   | BClose id => id <> x
-  | BCreate id => ~ In id (bs_ids st) /\ id <> x
+  | BCreate _ id => ~ In id (bs_ids st) /\ id <> x
   end.
 
 Fixpoint brun_ok (b x : Z) (st : bstate) (evs : list bevent) : Prop :=
@@ -886,20 +1295,20 @@ Fixpoint brun_ok (b x : Z) (st : bstate) (evs : list bevent) : Prop :=
 Lemma bev_step_inv b st e x : 0 < b -> st_inv (bst st) -> bev_ok x st e -> st_inv (bst (bev_step b st e)).
 Proof.
   intros Hb (Hnd & Ho) Hok. destruct st as [ids off liq]. cbn [bst bs_ids bs_off fst snd] in *.
-  destruct e as [vf|id|id]; unfold st_inv; cbn [bev_step bst bs_ids bs_off bs_liq fst snd].
+  destruct e as [vf|id|k id]; unfold st_inv; cbn [bev_step bst bs_ids bs_off bs_liq fst snd].
   - rewrite bblock_ids_eq. cbn [fst snd]. split; [exact Hnd|].
     pose proof (sweep_window_ok_lem (zlen ids) off b (zlen_nonneg ids)). lia.
   - split; [apply nodup_filter; exact Hnd|exact Ho].
-  - split; [|exact Ho]. destruct Hok as (Hni & _). apply nodup_snoc; auto.
+  - split; [|exact Ho]. destruct Hok as (Hni & _). apply nodup_insert_at; auto.
 Qed.
 
 (* x stays in the list: nobody but x's owner removes it *)
 Lemma bev_step_in b st e x : bev_ok x st e -> In x (bs_ids st) -> In x (bs_ids (bev_step b st e)).
 Proof.
-  intros Hok Hin. destruct st as [ids off liq]. destruct e as [vf|id|id]; cbn [bev_step bs_ids] in *.
+  intros Hok Hin. destruct st as [ids off liq]. destruct e as [vf|id|k id]; cbn [bev_step bs_ids] in *.
   - exact Hin.
   - apply filter_In. split; [exact Hin|]. cbn in Hok. destruct (x =? id) eqn:E; [|reflexivity]. exfalso. apply Hok. lia.
-  - apply in_or_app. left; exact Hin.
+  - apply insert_at_in. right; exact Hin.
 Qed.
 
 (* once liquidated, always liquidated *)
@@ -922,14 +1331,17 @@ Proof.
     unfold bseizes. rewrite Em, Hv. reflexivity.
 Qed.
 
+(* the borrow potential: the vault potential plus one more block per pending insertion *)
+Definition bpot (b x : Z) (st : list Z * Z) (c : Z) : Z := pot b x st c + c.
+
 (* the step lemma: the potential pays for every block x survives unliquidated *)
 Lemma bpot_step b st e x c : 0 < b -> st_inv (bst st) -> bev_ok x st e -> is_bcreate e <= c ->
   In x (bs_ids st) -> ~ In x (bs_liq (bev_step b st e)) ->
-  pot b x (bst (bev_step b st e)) (c - is_bcreate e) + is_bblock e <= pot b x (bst st) c.
+  bpot b x (bst (bev_step b st e)) (c - is_bcreate e) + is_bblock e <= bpot b x (bst st) c.
 Proof.
-  intros Hb Hinv Hok Hc Hx Hnl.
+  intros Hb Hinv Hok Hc Hx Hnl. unfold bpot.
   pose proof (bev_step_in b st e x Hok Hx) as Hx'.
-  destruct e as [vf|id|id]; cbn [is_bcreate is_bblock] in *.
+  destruct e as [vf|id|k id]; cbn [is_bcreate is_bblock] in *.
   - (* a block: the list is unchanged, x was outside the window *)
     assert (Hnw : ~ (fst (sweep_window (zlen (bs_ids st)) (bs_off st) b) <= idx x (bs_ids st)
                      < snd (sweep_window (zlen (bs_ids st)) (bs_off st) b))).
@@ -941,11 +1353,15 @@ Proof.
   - (* repayment / deletion of another borrow: the vault schedule's close *)
     pose proof (pot_step b (bst st) (EClose id) x c Hb Hinv Hok Hc) as H.
     destruct st as [ids off liq]. unfold bst in *. cbn [bs_ids bs_off bev_step ev_step fst snd is_create is_block] in *.
-    apply H. exact Hx'.
-  - (* a new borrow: appended *)
-    pose proof (pot_step b (bst st) (ECreate id) x c Hb Hinv Hok Hc) as H.
-    destruct st as [ids off liq]. unfold bst in *. cbn [bs_ids bs_off bev_step ev_step fst snd is_create is_block] in *.
-    apply H. exact Hx'.
+    specialize (H Hx'). lia.
+  - (* a new borrow: inserted at position k *)
+    destruct Hinv as (_ & Ho). destruct Hok as (Hni & Hne).
+    destruct st as [ids off liq]. unfold bst in *. cbn [bs_ids bs_off bs_liq fst snd bev_step] in *.
+    unfold pot. cbn [fst snd]. rewrite zlen_insert_at.
+    replace (zlen ids + 1 + (c - 1)) with (zlen ids + c) by lia.
+    assert (Hi' : idx x (insert_at k id ids) = idx x ids \/ idx x (insert_at k id ids) = idx x ids + 1).
+    { unfold idx. destruct (idxn_insert_at k ids id x ltac:(congruence) Hx) as [H|H]; rewrite H; [left; reflexivity|right; lia]. }
+    pose proof (pot_T_insert (zlen ids) (idx x ids) _ off b Hb (idx_bounds x ids Hx) Ho Hi'). lia.
 Qed.
 
 Lemma n_bblocks_cons e r : n_bblocks (e :: r) = is_bblock e + n_bblocks r.
@@ -960,11 +1376,11 @@ Proof. induction evs as [|e r IH]; [cbn; lia|]. rewrite n_bcreates_cons. pose pr
 Lemma blive_main b x : 0 < b -> forall evs st c,
   st_inv (bst st) -> In x (bs_ids st) -> brun_ok b x st evs -> n_bcreates evs <= c ->
   ~ In x (bs_liq (fold_left (bev_step b) evs st)) ->
-  n_bblocks evs <= pot b x (bst st) c.
+  n_bblocks evs <= bpot b x (bst st) c.
 Proof.
   intros Hb. induction evs as [|e r IH]; intros st c Hinv Hx Hok Hc Hnl.
   - replace (n_bblocks []) with 0 by reflexivity. replace (n_bcreates []) with 0 in Hc by reflexivity.
-    destruct Hinv as (_ & Ho). apply pot_nonneg; auto.
+    destruct Hinv as (_ & Ho). unfold bpot. pose proof (pot_nonneg b x (bst st) c Hb Hc Hx Ho). lia.
   - cbn [fold_left] in Hnl. destruct Hok as (Hok1 & Hok2). rewrite n_bcreates_cons in Hc.
     pose proof (is_bcreate_nonneg e). pose proof (n_bcreates_nonneg r).
     pose proof (IH (bev_step b st e) (c - is_bcreate e) (bev_step_inv b st e x Hb Hinv Hok1)
@@ -974,20 +1390,22 @@ Proof.
     pose proof (bpot_step b st e x c Hb Hinv Hok1 ltac:(lia) Hx Hnl1). rewrite n_bblocks_cons. lia.
 Qed.
 
-(* V2 borrow liveness, interleaved: repayments / deletions of OTHER borrows and new borrows between
-   the blocks, ANY verdict (error and panic included) for every other borrow in every block; x above
-   its threshold and liquidatable in every block.  After live_bound blocks x is liquidated. *)
+(* V2 borrow liveness, interleaved: repayments / deletions of OTHER borrows and new borrows
+   (inserted ANYWHERE in the list) between the blocks, ANY verdict (error and panic included) for
+   every other borrow in every block; x above its threshold and liquidatable in every block.
+   After blive_bound blocks x is liquidated. *)
 Theorem blive_interleaved : forall b x ids off liq evs c,
   1 <= b -> 0 <= off -> NoDup ids -> In x ids ->
   brun_ok b x (mkB ids off liq) evs -> n_bcreates evs <= c ->
-  live_bound (zlen ids + c) c b <= n_bblocks evs ->
+  blive_bound (zlen ids + c) c b <= n_bblocks evs ->
   In x (bs_liq (fold_left (bev_step b) evs (mkB ids off liq))).
 Proof.
   intros b x ids off liq evs c Hb Ho Hnd Hx Hok Hc Hn.
   destruct (in_dec Z.eq_dec x (bs_liq (fold_left (bev_step b) evs (mkB ids off liq)))) as [H|H]; [exact H|exfalso].
   pose proof (blive_main b x ltac:(lia) evs (mkB ids off liq) c (conj Hnd Ho) Hx Hok Hc H) as Hle.
   pose proof (n_bcreates_nonneg evs).
-  pose proof (pot_le_bound b x ids off c ltac:(lia) ltac:(lia) Hx Ho). unfold bst in Hle. cbn [bs_ids bs_off] in Hle. lia.
+  pose proof (pot_le_bound b x ids off c ltac:(lia) ltac:(lia) Hx Ho).
+  unfold bpot, bst, blive_bound in *. cbn [bs_ids bs_off] in Hle. lia.
 Qed.
 
 (* quiet case: only blocks.  The list does not shrink under seizures (a liquidated borrow stays
